@@ -1,6 +1,8 @@
-(* C07 -- continuous-mode gap fill semantics: the fill-value table (finite domain, complete). *)
+(* C07 -- continuous-mode gap fill semantics: the fill-value table (finite domain, complete) and
+   the structure of the un-chunked continuous layout for ALL histories of that mode (the C library
+   accepts only single-block calls there; the extension splits block writes into such calls). *)
 From Coq Require Import ZArith List Bool.
-From DRF Require Import Model.FillValue Proofs.FillProofs.
+From DRF Require Import Model.FillValue Proofs.FillProofs Model.WriterCore Proofs.WriterInv Proofs.WriterInvU.
 Import ListNotations.
 Local Open Scope Z_scope.
 
@@ -20,3 +22,40 @@ Theorem C07_native_nan_variant_refuted :
     forallb (fun comp => is_missing c (raw_value c comp)) (components c (component_image_native_nan c)) = false.
 Proof. exact native_nan_refuted. Qed.
 Print Assumptions C07_native_nan_variant_refuted.
+
+(* Continuous mode without compression/checksum, any history of calls (any lengths, gaps inside a
+   file, at the head of the first file, at the tail of the last, spanning whole files; rejected
+   calls interleaved).  Against the Spec map s of the samples actually written:
+   - every written sample is stored at its index with its value (ru_written);
+   - every other exposed slot holds the fill value, and only slots of existing files are exposed
+     (ru_only);
+   - every existing file holds at least one written sample -- a file is created only if one of its
+     slots was written (ru_files);
+   - the cursor is the Spec cursor (ru_cur). *)
+Theorem C07_unchunked_refines : forall c ops, vcfg c -> c_chunk c = false -> c_cont c = true ->
+  Forall (fun op => 0 <= fst op) ops ->
+  refines_u c (fold_left (model_step c) ops init_state) (fold_left (spec_step c) ops spec_init).
+Proof. exact writer_refines_unchunked. Qed.
+Print Assumptions C07_unchunked_refines.
+
+(* every file that exists exposes every slot of its time window as a single block *)
+Theorem C07_one_full_block_per_file : forall c ops, vcfg c -> c_chunk c = false -> c_cont c = true ->
+  Forall (fun op => 0 <= fst op) ops ->
+  Forall (fun a => f_index a = [(wlo c (f_ms a), 0)] /\ zlen (f_data a) = whi c (f_ms a) - wlo c (f_ms a))
+         (all_files (fold_left (model_step c) ops init_state)).
+Proof. exact unchunked_files_full_block. Qed.
+Print Assumptions C07_one_full_block_per_file.
+
+(* with compression or checksums (chunked), continuous mode runs the very same model code as gapped
+   mode: c_cont is consulted only for the multi-block rejection and for the un-chunked row rebasing,
+   so the files are those of Properties/C01.v / C06.v; non-vacuity of the hypotheses above: *)
+Theorem C07_example :
+  let c := mkCfg 150000000003 100 1 1 100 true false in
+  let ops := [(0, [1; 2]); (4, [3]); (30, [4; 5])] in
+  let st := fold_left (model_step c) ops init_state in
+  vcfg c /\ w_gi st = 32 /\ length (all_files st) = 2%nat /\
+  lookup_st st 150000000000 = Some Fill /\ lookup_st st 150000000004 = Some 2 /\
+  lookup_st st 150000000005 = Some Fill /\ lookup_st st 150000000007 = Some 3 /\
+  lookup_st st 150000000015 = None /\ lookup_st st 150000000033 = Some 4.
+Proof. exact unchunked_example. Qed.
+Print Assumptions C07_example.
